@@ -1,5 +1,7 @@
 import Bmc.Driver.Hs
 import Bmc.Proto.Suites
+import Bmc.Proto.Discovery
+import Bmc.Spec.Enum
 namespace Bmc.Driver
 open Bmc Bmc.Proto
 
@@ -20,7 +22,15 @@ def evalSuite (args : List String) : String :=
   | [prefs, adv] =>
     match parseSuites prefs, (if adv == "fail" then some none else (parseSuites adv).map some) with
     | some prefs, some adv =>
-      match determine prefs adv with
+      -- the advertised suites as the reference BMC of the harness holds them: standard records C0h, ID k+1, one
+      -- integrity and one confidentiality algorithm each, served 16 bytes per list index; discovery is EXECUTED
+      let page : Nat → Option Bytes := match adv with
+        | none => fun _ => none
+        | some l =>
+          let rs : List Spec.Enum.Record := (List.range l.length).zipWith (fun k (s : Suite) =>
+            { id := k + 1, iana := none, auth := s.auth, integ := [s.integ], conf := [s.conf] }) l
+          Enum.pageOfBody fun i => some (Spec.Enum.pageBody 0x0E (Spec.Enum.encodeRecords rs) i)
+      match determineFull prefs page with
       | .propose p d => s!"proposed={p.auth}/{p.integ}/{p.conf} discovery={bool d} res={if supportedSuite p then "ok" else "err"}"
       | .noSupported => "proposed=none discovery=1 res=nosuite"
       | .discoveryFailed => "proposed=none discovery=1 res=err"
